@@ -5,12 +5,15 @@ import (
 	"go/ast"
 	"go/token"
 	"go/types"
+	"sort"
 	"strings"
 
+	"verif/checker/internal/dtab"
 	"verif/checker/internal/lin"
 	"verif/checker/internal/load"
 	"verif/checker/internal/report"
 	"verif/checker/internal/shape"
+	"verif/checker/internal/sym"
 )
 
 // ---------------------------------------------------------------------------
@@ -150,6 +153,7 @@ func CheckC05(c *Ctx) {
 	}
 	c.registryCoverage(analysed)
 	c.actionConstants()
+	c.decoratorHold()
 	run.Assume("a wrapped strategy s emits max(n, s.warmup) actions with anchor 0 and Hold through its warm-up (the contract this check establishes for every concrete strategy)")
 }
 
@@ -335,7 +339,7 @@ func CheckC14(c *Ctx) {
 	run.Floor("report_methods", 40)
 	c.templateShape()
 	for _, fi := range reps {
-		for _, r := range c.Results(fi, Opts{Mode: shape.ModeContracts}) {
+		for _, r := range c.Results(fi, Opts{Mode: shape.ModeContracts, SkipGamma: reportNeedsNoGamma}) {
 			c.undecidedToFindings(r, "report")
 			c.checkReport(r, fi)
 		}
@@ -440,4 +444,103 @@ func (c *Ctx) checkReport(r *shape.Result, fi *load.FuncInfo) {
 		run.Oblige(false)
 		run.Violate(report.Finding{Rule: "report/columns", Site: site, Detail: fmt.Sprint(nCols), Pos: pos, Message: "a strategy report needs at least the close, annotation and outcome columns"})
 	}
+}
+
+// reportNeedsNoGamma: strategies whose Report pads every column by that column's own warm-up and
+// therefore supplies one value per date for every configuration; their ordering assumption in Γ
+// (needed by Compute, C05) is not used when the report is analysed, so that a report that starts
+// to depend on the ordering is noticed.
+var reportNeedsNoGamma = map[string]bool{"trend.DemaStrategy": true}
+
+// decoratorHold: a decorator that is not invested and whose wrapped strategy says Hold must say
+// Hold and stay not invested, whatever the closing price is (C05: Hold through the wrapped
+// strategy's warm-up). Decided on the closure's guarded commands for every ordering of the
+// closing price, the remembered level and 0.
+func (c *Ctx) decoratorHold() {
+	run := c.Run
+	for _, typ := range []string{"NoLossStrategy", "StopLossStrategy"} {
+		fi := c.fn("strategy/decorator", typ, "Compute")
+		if fi == nil {
+			continue
+		}
+		site := "strategy/decorator.(*" + typ + ").Compute"
+		lit := closureArg(fi.Pkg.TypesInfo, fi.Decl, "helper.Operate")
+		if lit == nil {
+			c.violate("actions/decorator-hold", site, "closure", fi.Decl.Pos(), "the decorator's closure passed to helper.Operate was not found (undecided, fails closed)")
+			continue
+		}
+		m := dtab.FromFuncLit(fi.Pkg.TypesInfo, lit)
+		if len(m.Unsupported) > 0 || len(m.Params) != 2 || len(m.State) != 1 {
+			c.violate("actions/decorator-hold", site, "shape", lit.Pos(), fmt.Sprintf("the decorator's step is not a loop-free function of (action, closing) with one remembered level (undecided, fails closed): %v %v %v", m.Params, m.State, m.Unsupported))
+			continue
+		}
+		run.Count("decorator_steps", 1)
+		level := m.State[0]
+		sub := map[string]sym.Expr{m.Params[0]: sym.V("#Hold")}
+		keys := map[string]bool{}
+		type pth struct {
+			fns []boolFn
+			p   *dtab.Path
+		}
+		var ps []pth
+		for _, p := range m.Paths {
+			q := pth{p: p}
+			for _, cd := range p.Conds {
+				r := sym.Subst(cd, sub)
+				collectCondKeys(r, keys)
+				q.fns = append(q.fns, compileB(r))
+			}
+			ps = append(ps, q)
+		}
+		levelKey := cmpKey(sym.Cmp{Op: "==", L: sym.V(level), R: sym.N(0)}).key
+		var ks []string
+		for k := range keys {
+			if k != levelKey {
+				ks = append(ks, k)
+			}
+		}
+		sort.Strings(ks)
+		total := 1
+		for range ks {
+			total *= 3
+		}
+		bad := ""
+		for idx := 0; idx < total && bad == ""; idx++ {
+			t := truth{sg: map[string]int{levelKey: 0}, bools: map[string]bool{}}
+			x := idx
+			var desc []string
+			for _, k := range ks {
+				t.sg[k] = x%3 - 1
+				x /= 3
+				desc = append(desc, fmt.Sprintf("%s %s 0", k, map[int]string{-1: "<", 0: "=", 1: ">"}[t.sg[k]]))
+			}
+			for _, q := range ps {
+				take := true
+				for _, f := range q.fns {
+					v, ok := f(t)
+					if !ok {
+						bad = "a condition of the step is not a comparison of its inputs"
+					}
+					if !v {
+						take = false
+						break
+					}
+				}
+				if !take {
+					continue
+				}
+				out, _ := pathAction(q.p)
+				if out != "Hold" {
+					bad = fmt.Sprintf("not invested, wrapped action Hold, %s: the decorator says %s", strings.Join(desc, ", "), out)
+				} else if u, has := q.p.Updates[level]; has && !sym.Equal(u, sym.V(level)) && !sym.Equal(u, sym.N(0)) {
+					bad = fmt.Sprintf("not invested, wrapped action Hold, %s: the decorator becomes invested (%s)", strings.Join(desc, ", "), sym.CanonString(u))
+				}
+			}
+		}
+		run.Oblige(bad == "")
+		if bad != "" {
+			c.violate("actions/decorator-hold", site, short(bad, 120), lit.Pos(), "a decorated strategy must say Hold while the wrapped strategy says Hold and no position is open (its warm-up): "+bad)
+		}
+	}
+	run.Floor("decorator_steps", 2)
 }
